@@ -25,6 +25,12 @@
 //!                        the same DKW test against N(0,1).
 //! False-alarm probability of a run <= (#DKW tests)·1e-12 by construction.
 //!
+//! `bulk-boundary:<family>`: bulk requests at and around chunk boundaries ("bulk sampling returns exactly
+//! the requested number and shape of draws" for every size, in particular the sizes at which an
+//! implementation that splits a request into blocks changes its path): n = k·2^j − 1, k·2^j, k·2^j + 1
+//! and round decimal sizes, through `sample_n`, `sample_matrix` (several factorisations of n) and the
+//! MVN `sample_n`; count / shape / support / integrality / no panic, no statistics.
+//!
 //! Two further workload families (both part of "every valid parameter setting" / "every random stream"):
 //!   * `mvn:badly-scaled`  covariances Σ = D·R·D whose coordinates live on very different scales
 //!                        (standard deviations 1e-8..1e2, i.e. variances 1e-16..1e4, variance ratio
@@ -1422,6 +1428,206 @@ fn run_inject(cfg: &Cfg, rep: &mut Report, spec: &CaseSpec, rng: &mut Rng) {
 }
 
 // ---------------------------------------------------------------------------------------------
+// bulk requests at and around chunk boundaries
+
+/// Request sizes n = k·2^j − 1, k·2^j, k·2^j + 1 for every power of two 2^8..2^17 and small k, plus
+/// round decimal sizes of the 1e5 scale; all inside the size range the quantifier names (2e5 draws
+/// per case in the quick tier, up to 4e6 in the thorough tier). Returns (n, class label).
+fn boundary_sizes(cfg: &Cfg) -> Vec<(usize, &'static str)> {
+    let mut v: Vec<(usize, &'static str)> = Vec::new();
+    let jmax = if cfg.lite { 10 } else { 17 };
+    for j in 8..=jmax {
+        let ks: &[usize] = if cfg.lite {
+            &[1, 2]
+        } else if j <= 13 {
+            &[1, 2, 3, 5]
+        } else if j <= 16 {
+            &[1, 2, 3]
+        } else if cfg.thorough() {
+            &[1, 2, 3, 4, 5, 7, 8]
+        } else {
+            &[1, 2]
+        };
+        for &k in ks {
+            let b = k << j;
+            v.push((b - 1, "bulk-boundary:n=k*2^j-1"));
+            v.push((b, "bulk-boundary:n=k*2^j"));
+            v.push((b + 1, "bulk-boundary:n=k*2^j+1"));
+        }
+    }
+    if !cfg.lite {
+        for n in [100_000, 200_000, 250_000, 300_000] {
+            v.push((n, "bulk-boundary:n=round-decimal"));
+        }
+        if cfg.thorough() {
+            for n in [500_000, 1_000_000, 2_000_000] {
+                v.push((n, "bulk-boundary:n=round-decimal"));
+            }
+        }
+    }
+    v.sort();
+    v.dedup_by_key(|e| e.0);
+    v
+}
+
+/// `count` factorisations r·c = n: the most nearly square one first, then random divisor pairs in
+/// either orientation (a prime n only has 1 x n and n x 1).
+fn splits(n: usize, rng: &mut Rng, count: usize) -> Vec<(usize, usize)> {
+    let mut divs = Vec::new();
+    let mut f = 1;
+    while f * f <= n {
+        if n % f == 0 {
+            divs.push(f);
+        }
+        f += 1;
+    }
+    let sq = *divs.last().unwrap();
+    let mut out = vec![(sq, n / sq)];
+    out.truncate(count);
+    let mut tries = 0;
+    while out.len() < count && tries < 16 {
+        tries += 1;
+        let f = *rng.choose(&divs);
+        let pair = if rng.bool() { (f, n / f) } else { (n / f, f) };
+        if !out.contains(&pair) {
+            out.push(pair);
+        }
+    }
+    out
+}
+
+enum BoundaryTarget {
+    One(Law),
+    Mvn(MvnSpec),
+}
+
+/// Count, shape, support (integrality) and no panic for the bulk calls of one law at the sizes
+/// `sizes[g], sizes[g + groups], ...`. No statistics: the distribution of the draws is judged by the
+/// DKW cases; here every returned value only has to exist and lie in the support.
+fn run_boundary(rep: &mut Report, target: &BoundaryTarget, sizes: &[(usize, &'static str)], g: usize, groups: usize, rng: &mut Rng) {
+    let (family, label) = match target {
+        BoundaryTarget::One(law) => (law.family(), format!("{:?}", law)),
+        BoundaryTarget::Mvn(m) => ("mvn", format!("MVN d={} ({})", m.mean.len(), m.regime)),
+    };
+    let regime = format!("bulk-boundary:{}", family);
+    // the per-chunk iteration budget of the DKW cases does not apply to requests of 1e5 draws
+    vh::set_budget(u64::MAX);
+    enum Built {
+        One(Box<dyn Distribution1D>),
+        Mvn(MVN, usize),
+    }
+    let built = guard(|| match target {
+        BoundaryTarget::One(law) => Built::One(law.build()),
+        BoundaryTarget::Mvn(m) => {
+            let d = m.mean.len();
+            Built::Mvn(MVN::new(Vector::new(m.mean.clone()), Matrix::new(m.sigma.clone(), d as i32, d as i32)), d)
+        }
+    });
+    let built = match built {
+        Ok(b) => b,
+        // judged (and reported) by the ordinary case of the same parameter point
+        Err(_) => return,
+    };
+    for &(n, class) in sizes.iter().skip(g).step_by(groups) {
+        let exact = class == "bulk-boundary:n=k*2^j" || class == "bulk-boundary:n=round-decimal";
+        // (api, rows, cols): rows = 0 means the vector form
+        let mut calls: Vec<(usize, usize)> = vec![(0, n)];
+        if let Built::One(_) = built {
+            // the largest sizes: two factorisations at the boundary itself, the vector form next to it
+            let big = n >= 1 << 15;
+            calls.extend(splits(n, rng, if exact { if big { 2 } else { 3 } } else { 1 - big as usize }));
+        }
+        for (r, c) in calls {
+            rep.case(&regime);
+            rep.seen(class, 1);
+            if n >= 1 << 15 {
+                rep.seen("bulk-boundary:n>=2^15", 1);
+            }
+            let api = match (&built, r) {
+                (Built::One(_), 0) => format!("sample_n({})", n),
+                (Built::One(_), _) => format!("sample_matrix({}, {})", r, c),
+                (Built::Mvn(..), _) => format!("DistributionND::sample_n({})", n),
+            };
+            let ctx = || json!({"law": label, "family": family, "api": api, "requested_draws": n, "alea_seed_before_call": alea::get_seed()});
+            let state = alea::get_seed();
+            let res = guard(|| match &built {
+                Built::One(d) => {
+                    if r == 0 {
+                        let v = d.sample_n(n).v;
+                        (v.len() == n, json!({"returned_len": v.len()}), v)
+                    } else {
+                        let mm = d.sample_matrix(r, c);
+                        (mm.nrows == r && mm.ncols == c && mm.data.v.len() == n, json!({"returned_shape": [mm.nrows, mm.ncols], "returned_len": mm.data.v.len()}), mm.data.v)
+                    }
+                }
+                Built::Mvn(m, d) => {
+                    let mm = DistributionND::sample_n(m, n);
+                    (mm.nrows == n && mm.ncols == *d && mm.data.v.len() == n * d, json!({"returned_shape": [mm.nrows, mm.ncols], "returned_len": mm.data.v.len(), "expected_shape": [n, d]}), mm.data.v)
+                }
+            });
+            vh::reset();
+            let (shape_ok, observed, vals) = match res {
+                Ok(t) => {
+                    rep.check("C03.no_panic", &regime, true, || json!(null));
+                    t
+                }
+                Err(msg) => {
+                    rep.check("C03.no_panic", &regime, false, || {
+                        let mut cx = ctx();
+                        cx["alea_seed_before_call"] = json!(state);
+                        cx["panic"] = json!(msg);
+                        cx["expected"] = json!("exactly the requested number and shape of draws");
+                        cx
+                    });
+                    continue;
+                }
+            };
+            let id = if r == 0 && matches!(built, Built::One(_)) { "C03.bulk.sample_n.count" } else { "C03.bulk.sample_matrix.shape" };
+            rep.check(id, &regime, shape_ok, || {
+                let mut cx = ctx();
+                cx["alea_seed_before_call"] = json!(state);
+                cx["observed"] = observed.clone();
+                cx
+            });
+            match target {
+                BoundaryTarget::One(law) => {
+                    let bad = vals.iter().position(|&x| !law.in_support(x));
+                    rep.check("C03.support", &regime, bad.is_none(), || {
+                        let mut cx = ctx();
+                        cx["alea_seed_before_call"] = json!(state);
+                        cx["draw_index"] = json!(bad.unwrap());
+                        cx["observed"] = jnum(vals[bad.unwrap()]);
+                        cx["expected"] = json!("finite value inside the closed support");
+                        cx
+                    });
+                    if law.discrete() {
+                        let badi = vals.iter().position(|&x| !(x.is_finite() && x == x.trunc()));
+                        rep.check("C03.integer", &regime, badi.is_none(), || {
+                            let mut cx = ctx();
+                            cx["alea_seed_before_call"] = json!(state);
+                            cx["draw_index"] = json!(badi.unwrap());
+                            cx["observed"] = jnum(vals[badi.unwrap()]);
+                            cx
+                        });
+                    }
+                }
+                BoundaryTarget::Mvn(_) => {
+                    let bad = vals.iter().position(|x| !x.is_finite());
+                    rep.check("C03.support", &regime, bad.is_none(), || {
+                        let mut cx = ctx();
+                        cx["alea_seed_before_call"] = json!(state);
+                        cx["value_index"] = json!(bad.unwrap());
+                        cx["observed"] = jnum(vals[bad.unwrap()]);
+                        cx
+                    });
+                }
+            }
+            rep.note_add(&format!("bulk_boundary_draws.{}", family), n as f64);
+        }
+    }
+}
+
+// ---------------------------------------------------------------------------------------------
 
 const REGIMES_1D: &[&str] = &[
     "normal:sigma>0",
@@ -1492,7 +1698,7 @@ const SITES: &[(&str, u64, bool)] = &[
 ];
 
 pub fn run(cfg: &Cfg, rep: &mut Report) {
-    rep.rule = "fixed grid of parameter points covering every sampler branch named in the quantifier (gamma shape <1/3, =1/3, <1, >=1 and beta/chi2/t built on it; Poisson rate <10, 10..100, 125/149, >=150; binomial inversion/BTPE on both sides of n*min(p,1-p)=30 with and without the p<->1-p flip, p in {0,1}, n up to 1e5; equal-bounds uniform/discrete uniform; normal |mu|<=1e3, sigma=0; MVN d=1..4; badly scaled MVN covariances D*R*D with standard deviations 1e-8..1e2, variance ratio >= 1e6, |correlations| up to 0.94, d = 1..6: 8 fixed + 12 (24) random) plus random parameter points inside the same regimes; each case = one law, one alea seed, n draws requested through sample/sample_n/sample_matrix in turn (quick 2e5, thorough 4e6; the grid is run with 2 (quick) / 3 (thorough) alea seeds per point plus 32 / 96 random points; quick adds 24 sentinel cases at n = 4e6). non-trivial = the law is not a point mass; distinct by (law, parameters, alea seed). Fault injection: every grid point x 8 adversarial alea states (a raw word with an all-ones / all-zero 32-bit half) x word position 0..5 and one in 6..11 x {12 sample() calls, sample_n(12)}: no panic, bounded progress, support, integrality".into();
+    rep.rule = "fixed grid of parameter points covering every sampler branch named in the quantifier (gamma shape <1/3, =1/3, <1, >=1 and beta/chi2/t built on it; Poisson rate <10, 10..100, 125/149, >=150; binomial inversion/BTPE on both sides of n*min(p,1-p)=30 with and without the p<->1-p flip, p in {0,1}, n up to 1e5; equal-bounds uniform/discrete uniform; normal |mu|<=1e3, sigma=0; MVN d=1..4; badly scaled MVN covariances D*R*D with standard deviations 1e-8..1e2, variance ratio >= 1e6, |correlations| up to 0.94, d = 1..6: 8 fixed + 12 (24) random) plus random parameter points inside the same regimes; each case = one law, one alea seed, n draws requested through sample/sample_n/sample_matrix in turn (quick 2e5, thorough 4e6; the grid is run with 2 (quick) / 3 (thorough) alea seeds per point plus 32 / 96 random points; quick adds 24 sentinel cases at n = 4e6). non-trivial = the law is not a point mass; distinct by (law, parameters, alea seed). Bulk requests at and around chunk boundaries: one parameter point per regime label of every 1-D law and MVN d = 1..3, sizes n = k*2^j - 1, k*2^j, k*2^j + 1 for 2^j = 256..131072 (k in 1..5 up to 2^13, 1..3 up to 2^16, 1..2 at 2^17; thorough: k up to 8 at 2^17) and round decimal sizes 1e5..3e5 (thorough: up to 2e6), each through sample_n(n) and sample_matrix(r, c) with up to 3 factorisations r*c = n (2 from 2^15 draws on, where the sizes next to a boundary use the vector form only; MVN: DistributionND::sample_n): count, shape, support, integrality, no panic (no statistics). Fault injection: every grid point x 8 adversarial alea states (a raw word with an all-ones / all-zero 32-bit half) x word position 0..5 and one in 6..11 x {12 sample() calls, sample_n(12)}: no panic, bounded progress, support, integrality".into();
     rep.assume("parameters are finite and accepted by the constructor's documented domain (no NaN/inf parameters)");
     rep.assume("bulk shapes have positive dimensions for the matrix forms (Matrix cannot represent 0 rows: C15); sample_n(0) is checked for the vector form");
     rep.assume("'terminates' is restated as bounded progress: no single draw ticks any rejection-loop site more than 1e6 times (DESIGN §0)");
@@ -1580,6 +1786,42 @@ pub fn run(cfg: &Cfg, rep: &mut Report) {
         par_cases(cfg, rep, 2, inj.len(), |i, rng, rep| run_inject(cfg, rep, &inj[i], rng));
         for f in FAMILIES {
             rep.require(&format!("inject:{}", f), 1);
+        }
+    }
+    // bulk requests at and around chunk boundaries: one parameter point per regime of every 1-D law
+    // (the first grid point carrying the label) and three MVN settings; count / shape / support only
+    if !cfg.miri() {
+        let mut seen = std::collections::BTreeSet::new();
+        let mut targets: Vec<BoundaryTarget> = Vec::new();
+        for c in base_grid() {
+            match c {
+                CaseSpec::One(l) => {
+                    if seen.insert(l.regime()) {
+                        targets.push(BoundaryTarget::One(l));
+                    }
+                }
+                CaseSpec::Mvn(m) => {
+                    if m.mean.len() <= 3 && seen.insert(m.regime) {
+                        targets.push(BoundaryTarget::Mvn(m));
+                    }
+                }
+            }
+        }
+        if cfg.lite {
+            targets.truncate(3);
+        }
+        let sizes = boundary_sizes(cfg);
+        let groups = if cfg.lite { 1 } else { 4 };
+        rep.note("bulk_boundary.sizes", json!(sizes.len()));
+        rep.note("bulk_boundary.max_size", json!(sizes.iter().map(|e| e.0).max()));
+        par_cases(cfg, rep, 3, targets.len() * groups, |i, rng, rep| run_boundary(rep, &targets[i / groups], &sizes, i % groups, groups, rng));
+        if !cfg.lite {
+            for f in FAMILIES {
+                rep.require(&format!("bulk-boundary:{}", f), 100);
+            }
+            for c in ["bulk-boundary:n=k*2^j-1", "bulk-boundary:n=k*2^j", "bulk-boundary:n=k*2^j+1", "bulk-boundary:n=round-decimal", "bulk-boundary:n>=2^15"] {
+                rep.require(c, 100);
+            }
         }
     }
     for &(site, min, in_miri) in SITES {
